@@ -20,6 +20,8 @@ UNITS = {
             "mismatch_leaves_body_intact": "try_cast/try_content(_mut) with any other type (incl. layout-compatible i32/[u8;4]/newtype) fail and leave the body intact",
             "same_named_types_are_distinct": "two distinct types with the same printed type name are not confused (identity is the TypeId)",
             "zero_sized_payload_dropped_once": "a zero-sized payload with a destructor is dropped exactly once (with and without clone / failed cast)",
+            "non_debugable_clones_and_casts": "new_non_debugable: try_clone is Some and equal, clone does not panic, the value casts back, length = memory size",
+            "container_lengths_are_sums": "byte_len of [T;N] / &[T] / Vec / tuples / Option / Result / Box is the sum over the parts (elements of different lengths, N <= 3)",
             "clone_is_equal_and_independent": "clone/try_clone yield an equal, independent value and keep the declared length",
             "non_clonable_yields_none": "new_non_clonable: try_clone is None, the value still casts back",
             "drop_exactly_once_all_scripts": "all 16 paths of clone? try_clone? failed-cast? ok-cast?|drop: every stored value dropped exactly once",
